@@ -2,7 +2,7 @@
 From Coq Require Import List String ZArith NArith Arith Lia Bool.
 From VLib Require Import Bytes.
 From Xfrm Require Import Layout Params Gen.XfrmLayout Gen.KernelUapi Gen.XfrmBuild Pairs XfrmModel KernelSpec
-  BytesLemmas.
+  Intent BytesLemmas.
 Import ListNotations.
 Open Scope string_scope.
 Open Scope nat_scope.
@@ -78,26 +78,9 @@ Ltac pow_lia :=
          end; lia.
 
 (** ---- header *)
-Definition wf32 (z : Z) : Prop := (0 <= z < 2 ^ 32)%Z.
 
 Lemma header_bytes_length len ty fl seq pid : List.length (header_bytes len ty fl seq pid) = 16.
 Proof. unfold header_bytes. rewrite encode_struct_length by closed. closed. Qed.
-
-Lemma k_header_emitted len ty fl seq pid data :
-  wf32 len -> (0 <= ty < 2 ^ 16)%Z -> (0 <= fl < 2 ^ 16)%Z -> wf32 seq -> wf32 pid ->
-  k_header (header_bytes len ty fl seq pid ++ data)
-  = mk_khdr (Z.to_N len) (Z.to_N ty) (Z.to_N fl) (Z.to_N seq) (Z.to_N pid).
-Proof.
-  intros Hl Ht Hf Hs Hp. unfold k_header, header_bytes.
-  change (encode_struct Py.NetlinkHeader (header_fields len ty fl seq pid) ++ data)
-    with ([] ++ encode_struct Py.NetlinkHeader (header_fields len ty fl seq pid) ++ data).
-  erewrite (kint_encoded K.nlmsghdr Py.NetlinkHeader "nlmsg_len" "length" _ [] data 0 len) by closed.
-  erewrite (kint_encoded K.nlmsghdr Py.NetlinkHeader "nlmsg_type" "type" _ [] data 0 ty) by closed.
-  erewrite (kint_encoded K.nlmsghdr Py.NetlinkHeader "nlmsg_flags" "flags" _ [] data 0 fl) by closed.
-  erewrite (kint_encoded K.nlmsghdr Py.NetlinkHeader "nlmsg_seq" "seq" _ [] data 0 seq) by closed.
-  erewrite (kint_encoded K.nlmsghdr Py.NetlinkHeader "nlmsg_pid" "pid" _ [] data 0 pid) by closed.
-  cbn [lf_w]. unfold wf32 in *. rewrite !trunc_small by (cbn; lia). reflexivity.
-Qed.
 
 Ltac side :=
   lazymatch goal with
@@ -107,11 +90,28 @@ Ltac side :=
   | |- _ => closed
   end.
 
+Lemma k_header_emitted len ty fl seq pid data :
+  wf32 len -> (0 <= ty < 2 ^ 16)%Z -> (0 <= fl < 2 ^ 16)%Z -> wf32 seq -> wf32 pid ->
+  k_header (header_bytes len ty fl seq pid ++ data)
+  = mk_khdr (Z.to_N len) (Z.to_N ty) (Z.to_N fl) (Z.to_N seq) (Z.to_N pid).
+Proof.
+  intros Hl Ht Hf Hs Hp. unfold k_header, header_bytes.
+  change (encode_struct Py.NetlinkHeader (header_fields len ty fl seq pid) ++ data)
+    with ([] ++ encode_struct Py.NetlinkHeader (header_fields len ty fl seq pid) ++ data).
+  erewrite (kint_encoded K.nlmsghdr Py.NetlinkHeader "nlmsg_len" "length" _ [] data 0 len) by side.
+  erewrite (kint_encoded K.nlmsghdr Py.NetlinkHeader "nlmsg_type" "type" _ [] data 0 ty) by side.
+  erewrite (kint_encoded K.nlmsghdr Py.NetlinkHeader "nlmsg_flags" "flags" _ [] data 0 fl) by side.
+  erewrite (kint_encoded K.nlmsghdr Py.NetlinkHeader "nlmsg_seq" "seq" _ [] data 0 seq) by side.
+  erewrite (kint_encoded K.nlmsghdr Py.NetlinkHeader "nlmsg_pid" "pid" _ [] data 0 pid) by side.
+  cbn [lf_w]. unfold wf32 in *. rewrite !trunc_small by (cbn; lia). reflexivity.
+Qed.
+
+
+
 Lemma message_length r seq pid :
   List.length (message_bytes r seq pid) = 16 + List.length (request_data r).
 Proof. unfold message_bytes. cbv zeta. now rewrite app_length, header_bytes_length. Qed.
 
-Definition flags_request_ack : N := Z.to_N (Z.lor K.NLM_F_REQUEST K.NLM_F_ACK).
 
 (** ---- flush *)
 Lemma flush_roundtrip r ty seq pid :
@@ -142,11 +142,7 @@ Proof.
 Qed.
 
 (** ---- addresses *)
-Definition wf_ip (a : ip) : Prop :=
-  wf_bytes (ip_packed a) /\
-  ((ip_version a = 4%Z /\ List.length (ip_packed a) = 4) \/ (ip_version a = 6%Z /\ List.length (ip_packed a) = 16)).
 
-Definition family_of (a : ip) : N := if Z.eqb (ip_version a) 4 then AF_INET else AF_INET6.
 
 Lemma word_roundtrip (b0 b1 b2 b3 : N) :
   wf_bytes [b0; b1; b2; b3] ->
